@@ -146,6 +146,19 @@ pub fn transplant(target: &Gad, other: &Gad, inputs: &[usize]) -> Option<Vec<F>>
     Some(a)
 }
 
+/// Sampled cross-validation of adversarial assignments: about one in `rate`
+/// candidates is also given to the real prover, which must agree with the
+/// reference evaluator (catches weakenings of the proof system itself that
+/// make a forged assignment provable).
+pub fn maybe_cross(g: &Gad, assignment: &[F], seed: u64, salt: usize, rate: u64, what: &str) -> Result<bool, Fail> {
+    let h = crate::runner::splitmix(seed ^ (salt as u64).wrapping_mul(0x9E37_79B9));
+    if h % rate != 0 {
+        return Ok(false);
+    }
+    cross_check(g, assignment, seed, what)?;
+    Ok(true)
+}
+
 /// Evaluator and real prover must agree on an assignment (sampled
 /// cross-validation of the oracle itself).
 pub fn cross_check(g: &Gad, assignment: &[F], seed: u64, what: &str) -> Result<(), Fail> {
@@ -243,6 +256,114 @@ pub struct BtsForge {
 /// the sub-sequence of segments that does (a gadget that no longer emits one
 /// of its parts), and the same selection is applied to adversarial vectors.
 pub type SegVec = Vec<(&'static str, Vec<F>)>;
+
+/// How a fitted role model treats each segment: kept as is, dropped, or (for a
+/// range-check segment) re-derived at another width that the honest table
+/// actually uses.
+#[derive(Clone, Debug, PartialEq, Eq)]
+pub enum SegFit {
+    Keep,
+    Drop,
+    Rewidth(usize),
+}
+
+/// Fit with range segments allowed to change width. `ranges[i]` = Some(value)
+/// for segment i when it is a range-check chain of that integer.
+pub fn fit_ranges(segs: &SegVec, ranges: &[Option<U256>], slice: &[F]) -> Option<Vec<SegFit>> {
+    // fast path: the honest model as is
+    let all: Vec<F> = segs.iter().flat_map(|(_, v)| v.iter().copied()).collect();
+    if all[..] == slice[..] {
+        return Some(vec![SegFit::Keep; segs.len()]);
+    }
+    // depth-first search over {keep, re-width, drop} per segment with memo of
+    // dead (segment, position) states
+    fn go(
+        i: usize,
+        pos: usize,
+        segs: &SegVec,
+        ranges: &[Option<U256>],
+        slice: &[F],
+        dead: &mut std::collections::HashSet<(usize, usize)>,
+        out: &mut Vec<SegFit>,
+        budget: &mut usize,
+    ) -> bool {
+        if i == segs.len() {
+            return pos == slice.len();
+        }
+        if dead.contains(&(i, pos)) || *budget == 0 {
+            return false;
+        }
+        *budget -= 1;
+        let v = &segs[i].1;
+        // keep
+        if pos + v.len() <= slice.len() && slice[pos..pos + v.len()] == v[..] {
+            out.push(SegFit::Keep);
+            if go(i + 1, pos + v.len(), segs, ranges, slice, dead, out, budget) {
+                return true;
+            }
+            out.pop();
+        }
+        // re-width a range chain (longest first)
+        if let Some(val) = ranges.get(i).copied().flatten() {
+            for w in (1..=256usize).rev() {
+                let cand = rc_vec(w, val);
+                if cand.is_empty() || cand.len() == v.len() {
+                    continue;
+                }
+                if pos + cand.len() <= slice.len() && slice[pos..pos + cand.len()] == cand[..] {
+                    out.push(SegFit::Rewidth(w));
+                    if go(i + 1, pos + cand.len(), segs, ranges, slice, dead, out, budget) {
+                        return true;
+                    }
+                    out.pop();
+                }
+            }
+        }
+        // drop
+        if !v.is_empty() {
+            out.push(SegFit::Drop);
+            if go(i + 1, pos, segs, ranges, slice, dead, out, budget) {
+                return true;
+            }
+            out.pop();
+        }
+        dead.insert((i, pos));
+        false
+    }
+    let mut dead = std::collections::HashSet::new();
+    let mut out = Vec::new();
+    let mut budget = 20_000usize;
+    go(0, 0, segs, ranges, slice, &mut dead, &mut out, &mut budget).then_some(out)
+}
+
+pub fn flatten_fit(segs: &SegVec, ranges: &[Option<U256>], fits: &[SegFit]) -> Vec<F> {
+    let mut out = Vec::new();
+    for (i, (_, v)) in segs.iter().enumerate() {
+        match &fits[i] {
+            SegFit::Keep => out.extend(v.iter().copied()),
+            SegFit::Drop => {}
+            SegFit::Rewidth(w) => out.extend(rc_vec(*w, ranges[i].unwrap_or(U256::ZERO))),
+        }
+    }
+    out
+}
+
+/// the integers whose range chains the segments of `bts_segs` carry
+pub fn bts_ranges(high: U256, low: F, nb: usize, forge: &BtsForge) -> Vec<Option<U256>> {
+    let high_f = f_of(high);
+    let (r_high, r_low) = modulus_split(nb as u32);
+    let diff = f_of(r_high) - high_f;
+    let inverse = forge.inverse.unwrap_or_else(|| diff.invert().unwrap_or(F::zero()));
+    let is_top = forge.is_top.unwrap_or(F::one() - diff * inverse);
+    let guard = forge.guard.unwrap_or(is_top * (f_of(r_low) - low));
+    vec![None, Some(high), None, None, Some(f_int(&diff)), None, None, None, None, None, Some(f_int(&guard))]
+}
+
+pub fn truncate_ranges(n: usize, high: U256, low: U256, forge: &BtsForge) -> Vec<Option<U256>> {
+    let mut v = vec![None, Some(low)];
+    v.extend(bts_ranges(high, f_of(low), n, forge));
+    v
+}
 
 pub fn flatten(segs: &SegVec, mask: &[bool]) -> Vec<F> {
     segs.iter()
@@ -382,6 +503,22 @@ pub fn logic_segs(pairs: usize, xor: bool, ch: &LogicChoice) -> SegVec {
     if pairs > 0 {
         v.extend(bts_segs(ch.a_split_high, la, 2 * pairs, &ch.forge_a));
         v.extend(bts_segs(ch.b_split_high, ra, 2 * pairs, &ch.forge_b));
+    }
+    v
+}
+
+/// integers of the range chains inside `logic_segs`
+pub fn logic_ranges(pairs: usize, ch: &LogicChoice) -> Vec<Option<U256>> {
+    let mut v: Vec<Option<U256>> = vec![None];
+    if pairs > 0 {
+        let four = F::from(4u64);
+        let (mut la, mut ra) = (F::zero(), F::zero());
+        for i in 0..pairs {
+            la = la * four + ch.a_quads[i];
+            ra = ra * four + ch.b_quads[i];
+        }
+        v.extend(bts_ranges(ch.a_split_high, la, 2 * pairs, &ch.forge_a));
+        v.extend(bts_ranges(ch.b_split_high, ra, 2 * pairs, &ch.forge_b));
     }
     v
 }
